@@ -198,7 +198,7 @@ class Engine:
 
     def judge(self, case: Case, run: Dict[str, Any], refs: List[Tuple[str, Any, List]], idxs: Optional[List[int]] = None) -> Dict[str, Any]:
         s = case.schema or sch.fixed(case.backend)
-        tol = 1e-5 if uses_float(s, case.query) else 1e-9
+        tol = max(1e-5 if uses_float(s, case.query) else 1e-9, getattr(case, "min_tol", 0.0))
         idxs = idxs if idxs is not None else list(range(len(case.events)))
         # a column booked as (vector of) float carries 24 bits and is logged with 9 significant digits
         col_tols = [1e-6 if "float" in b["type"] else 0.0 for b in (run["book"][0]["branches"] if run.get("book") else [])]
